@@ -222,9 +222,11 @@ func verifProducer() *Producer {
 
 // verifProducerOpt: producers with different public options (0 default, 1 no dictionaries + unsorted spans,
 // 2 8-bit dictionary limit, 3 a dictionary limit that is not one of the index-type capacities, set through a
-// caller-written Option).
+// caller-written Option, 4 attribute order key,value,parent_id).
 func verifProducerOpt(k int) *Producer {
 	switch k {
+	case 4: // the one non-default attribute order whose encoding the consumer assumes
+		return NewProducerWithOptions(cfg.WithNoZstd(), cfg.WithOrderAttrs32By(cfg.OrderAttrs32ByKeyValueParentId))
 	case 3:
 		return NewProducerWithOptions(cfg.WithNoZstd(), func(c *cfg.Config) { c.LimitIndexSize = 1000 })
 	case 1:
